@@ -215,7 +215,17 @@ def c_pow_int(rng, fn):
     prec = gen.pick_prec(rng)
     rnd = rng.choice(RND)
     r = rng.random()
-    if r < 0.08:
+    if r < 0.3:
+        # bases (1 +- 2^-k) and neighbours: the exact power sits just above/below representable numbers, so a wrong
+        # truncation direction or a dropped guard bit anywhere in the binary-exponentiation loop flips the result
+        k = rng.choice([rng.randint(2, 40), rng.randint(30, 200), rng.randint(150, 650)])
+        m = (1 << k) + rng.choice([1, -1]) * rng.choice([1, 1, 3, (1 << rng.randint(0, max(0, k // 2))) + 1])
+        s = gen.norm(rng.randrange(2), m, -k + rng.randint(-3, 3))
+        n = rng.choice([-9, -7, -5, -3, -2, 2, 3, 3, 5, 5, 7, 9, 11, 13, 17, 33])
+        prec = rng.choice([rng.randint(max(1, k - 5), k + 5), rng.randint(k + 1, 3 * k + 2), rng.randint(2 * k, 3 * k + 2), prec])
+        exact = ("pow", V(s) ** n, n, s[3])
+        return Case(fn, list(s) + [n, prec, r2i(rnd)], lambda: call_impl(L.mpf_pow_int, s, n, prec, rnd), exact, prec, rnd)
+    if r < 0.36:
         s = gen.value(rng, prec, special_p=0.7)
     else:
         bits = rng.choice([1, 2, 3, 5, 10, 30, 53, 100, rng.randint(1, 400)])
